@@ -4,6 +4,9 @@ from harness import common as H
 from harness import legacy as L
 from vlib import fakes as F
 
+# private-attribute groups (vlib/layout.py) the obligations of this module depend on
+LAYOUT = ['manager', 'coord', 'task', 'bex', 'tasksem', 'sws'] + ['legacy']
+
 EXPLANATION = (
     'C06: downloads to a file path run through the real code over an in-memory file system that evaluates the '
     'crash-point invariant after EVERY file-system operation (destination name absent / previous content / complete '
